@@ -397,7 +397,10 @@ fn evaluate_boolean(
                 || current_index >= current_end_index
             {
                 if current_op == Not {
-                    ret = false;
+                    // The value carried here is the result of the operand that just ended (a
+                    // nested list); the `not` negates it. A true operand short-circuits to
+                    // false, and a false last operand makes the `not` true.
+                    ret = !ret;
                 }
                 current_index = current_end_index;
                 continue;
